@@ -1,1 +1,112 @@
-// harness file send (included under cfg(kani) from /repo)
+// C13 — hook H5: `crate::helpers::gateway::send::verif_kani` (SendChannelConfig::new_with is private).
+// Decided: the capacity / read-size arithmetic that the ipa#1300 deadlock-freedom argument rests on.
+use std::num::NonZeroUsize;
+
+use super::*;
+use crate::helpers::{GatewayConfig, TotalRecords};
+use crate::utils::NonZeroU32PowerOfTwo;
+use crate::utils::non_zero_prev_power_of_two;
+use crate::verif_kani::common::*;
+
+harness! {
+    fn q13_power_of_two_type() {
+        // the type that carries `active`: constructible exactly from non-zero powers of two that fit u32
+        let v: usize = kani::any();
+        match NonZeroU32PowerOfTwo::try_from(v) {
+            Ok(p) => {
+                assert!(v != 0 && v & (v - 1) == 0 && v <= (1usize << 31));
+                assert!(p.get() == v && u32::from(p) as usize == v && p.to_non_zero_usize().get() == v);
+                kani::cover!(v == 1usize << 31);
+            }
+            Err(e) => {
+                assert!(v == 0 || v & (v - 1) != 0 || v > (1usize << 31));
+                std::mem::forget(e);
+            }
+        }
+        kani::cover!(true);
+    }
+}
+
+harness! {
+    fn q13_prev_power_of_two() {
+        let t: usize = kani::any();
+        let r = non_zero_prev_power_of_two(t);
+        assert!(r != 0 && r & (r - 1) == 0, "a power of two");
+        if t == 0 {
+            assert!(r == 1);
+        } else {
+            assert!(r <= t && (t >> 1) < r, "largest power of two <= target");
+        }
+        kani::cover!(t == usize::MAX);
+        kani::cover!(true);
+    }
+}
+
+fn config(active_log2: u32, read_size: usize) -> GatewayConfig {
+    GatewayConfig {
+        active: NonZeroU32PowerOfTwo::try_from(1usize << active_log2).unwrap(),
+        read_size: NonZeroUsize::new(read_size).unwrap(),
+        ..Default::default()
+    }
+}
+
+// Symbolic division by a symbolic record size did not finish (cadical, z3: > 300 s); the record
+// size is therefore instantiated (sizes of the message types used in the crate plus odd ones),
+// while the active window, the configured read size and the total-records kind stay symbolic.
+macro_rules! send_config {
+    ($name:ident, $record:expr) => {
+        harness! {
+            fn $name() {
+                let record: usize = $record;
+                let k: u32 = kani::any();
+                kani::assume(k <= 20);
+                let read: usize = kani::any();
+                kani::assume(read >= 1 && read <= (1 << 24));
+                let which: u8 = kani::any();
+                kani::assume(which < 3);
+                let n: usize = kani::any();
+                kani::assume(n >= 1);
+                let total = match which {
+                    0 => TotalRecords::Specified(NonZeroUsize::new(n).unwrap()),
+                    1 => TotalRecords::Indeterminate,
+                    _ => TotalRecords::Unspecified,
+                };
+                let active = 1usize << k;
+                let c = SendChannelConfig::new_with(config(k, read), total, record); // must not panic
+                let cap = c.total_capacity.get();
+                let rs = c.read_size.get();
+                assert!(c.record_size.get() == record);
+                assert!(cap == active * record, "capacity holds exactly the active window");
+                // read size is record * 2^j for some j <= k, hence divides the capacity
+                let mut ok = false;
+                let mut j = 0u32;
+                while j <= 20 {
+                    if j <= k && rs == record << j {
+                        ok = true;
+                    }
+                    j += 1;
+                }
+                assert!(ok, "read size is record_size times a power of two not above the active window");
+                if which == 1 {
+                    assert!(rs == record, "indeterminate totals flush record by record");
+                } else {
+                    assert!(rs <= std::cmp::max(record, read), "not above the configured read size (unless one record is larger)");
+                    assert!(rs == cap || 2 * rs > read, "as close to the target as a power-of-two multiple allows");
+                }
+                kani::cover!(which == 1);
+                kani::cover!(rs == cap && k > 0);
+                kani::cover!(true);
+            }
+        }
+    };
+}
+send_config!(q13_send_channel_config_r1, 1);
+send_config!(q13_send_channel_config_r2, 2);
+send_config!(q13_send_channel_config_r3, 3);
+send_config!(q13_send_channel_config_r8, 8);
+send_config!(q13_send_channel_config_r14, 14);
+send_config!(q13_send_channel_config_r16, 16);
+send_config!(q13_send_channel_config_r20, 20);
+send_config!(q13_send_channel_config_r32, 32);
+send_config!(q13_send_channel_config_r4095, 4095);
+send_config!(q13_send_channel_config_r4096, 4096);
